@@ -7,6 +7,7 @@
   this one-shot form by C08 (`state_is_function_of_bytes`, lazy block-buffer lemma), not here.
 -/
 import CC.Skein.Lemmas
+import CC.Skein.Src
 namespace CC.Thm.C05
 open CC CC.Skein CC.Skein.Model
 
@@ -75,5 +76,40 @@ example : Spec.skein 128 128 [] =
 example : Model.digest .debug skein256 20 (patBytes 3 33) = .ok (Spec.skein 32 20 (patBytes 3 33)) :=
   skein_conforms _ _ (by simp) _ _ (by decide)
 example : (Model.digest .debug skein256 32 [0xff]).isOk = true := by decide +kernel
+
+/-- **Source tie.**  The constants of hashes/skein/src/lib.rs (`VERSION`, `ID_STRING_LE`, `SCHEMA_VER`,
+    `CFG_TREE_INFO_SEQUENTIAL`, the `T1_*` tweak flags and block types, `CFG_STR_LEN`), as EVALUATED from the Rust
+    source on every run (tools/inventory_kernels.py → `CC.Gen.Kernels`), equal the model's; the three
+    `define_hasher!` invocations (Threefish instance, state bytes, state bits) are `skein256`, `skein512`,
+    `skein1024`; the Threefish `mix` kernel and tables Skein runs on are tied by `CC.Thm.C09.source_kernels_match`
+    (restated here through `CC.Src.src_threefish_*`).  Individual facts: `CC.Src.src_skein_*`.  The body of
+    `process_block` / UBI chaining is not translated; it stays tied by the differential correspondence. -/
+theorem source_kernels_match :
+    CC.Gen.Kernels.skein_errors = [] ∧ CC.Gen.Kernels.threefish_errors = [] ∧
+    VERSION = CC.Gen.Kernels.skein_VERSION ∧ ID_STRING_LE = CC.Gen.Kernels.skein_ID_STRING_LE ∧
+    SCHEMA_VER = CC.Gen.Kernels.skein_SCHEMA_VER ∧
+    CFG_TREE_INFO_SEQUENTIAL = CC.Gen.Kernels.skein_CFG_TREE_INFO_SEQUENTIAL ∧
+    T1_FLAG_FIRST = CC.Gen.Kernels.skein_T1_FLAG_FIRST ∧ T1_FLAG_FINAL = CC.Gen.Kernels.skein_T1_FLAG_FINAL ∧
+    T1_BLK_TYPE_CFG = CC.Gen.Kernels.skein_T1_BLK_TYPE_CFG ∧ T1_BLK_TYPE_MSG = CC.Gen.Kernels.skein_T1_BLK_TYPE_MSG ∧
+    T1_BLK_TYPE_OUT = CC.Gen.Kernels.skein_T1_BLK_TYPE_OUT ∧ CFG_STR_LEN = CC.Gen.Kernels.skein_CFG_STR_LEN ∧
+    CC.Gen.Kernels.skein_define_hasher.map
+        (fun r => (r.1, (⟨r.2.2.1, CC.Src.tfByName r.2.1⟩ : Params), r.2.2.2))
+      = [("Skein256", skein256, 8 * skein256.nb), ("Skein512", skein512, 8 * skein512.nb),
+         ("Skein1024", skein1024, 8 * skein1024.nb)] ∧
+    (CC.Threefish.Model.mix = fun r x => CC.Gen.Kernels.threefish_mix r x.1 x.2) ∧
+    CC.Threefish.Model.C240 = CC.Gen.Kernels.threefish_C240 ∧
+    CC.Threefish.Model.R_256 = CC.Gen.Kernels.threefish_R_256 ∧
+    CC.Threefish.Model.R_512 = CC.Gen.Kernels.threefish_R_512 ∧
+    CC.Threefish.Model.R_1024 = CC.Gen.Kernels.threefish_R_1024 ∧
+    CC.Threefish.Model.P_256 = CC.Gen.Kernels.threefish_P_256 ∧
+    CC.Threefish.Model.P_512 = CC.Gen.Kernels.threefish_P_512 ∧
+    CC.Threefish.Model.P_1024 = CC.Gen.Kernels.threefish_P_1024 :=
+  ⟨CC.Src.src_skein_clean, CC.Src.src_threefish_clean, CC.Src.src_skein_VERSION, CC.Src.src_skein_ID_STRING_LE,
+   CC.Src.src_skein_SCHEMA_VER, CC.Src.src_skein_CFG_TREE_INFO_SEQUENTIAL, CC.Src.src_skein_T1_FLAG_FIRST,
+   CC.Src.src_skein_T1_FLAG_FINAL, CC.Src.src_skein_T1_BLK_TYPE_CFG, CC.Src.src_skein_T1_BLK_TYPE_MSG,
+   CC.Src.src_skein_T1_BLK_TYPE_OUT, CC.Src.src_skein_CFG_STR_LEN, CC.Src.src_skein_instances,
+   CC.Src.src_threefish_mix, CC.Src.src_threefish_C240, CC.Src.src_threefish_R_256, CC.Src.src_threefish_R_512,
+   CC.Src.src_threefish_R_1024, CC.Src.src_threefish_P_256, CC.Src.src_threefish_P_512,
+   CC.Src.src_threefish_P_1024⟩
 
 end CC.Thm.C05
